@@ -92,6 +92,20 @@ pub struct CmpOpts {
     pub errors_unordered: bool,
     /// do not compare the result line
     pub skip_result: bool,
+    /// removals of block files happen in hash-set order: compare them as a count only
+    pub blur_block_rm: bool,
+}
+
+fn blur_rm(l: &str) -> String {
+    if l.starts_with("op rm d/") { let tail = l.rsplit(' ').next().unwrap_or(""); format!("op rm d/* - - {tail}") } else { l.to_string() }
+}
+
+/// For states reached by stopping in the middle of hash-set-ordered block removals: keep
+/// everything but block files, and their number.
+pub fn blur_blocks(state: &[String]) -> Vec<String> {
+    let mut out: Vec<String> = state.iter().filter(|l| !(l.starts_with("state d/") && l.matches('/').count() == 2)).cloned().collect();
+    out.push(format!("blocks {}", state.len() - out.len()));
+    out
 }
 
 /// Compare one real run with the model's answer.  Returns the number of L1 differences.
@@ -103,6 +117,7 @@ pub fn compare_run(report: &mut Report, sig_prefix: &str, case: &Value, real: &R
     // not split a run), canonicalised
     let rm: Vec<String> = canon_trace(&real.trace.iter().filter(|l| is_mutating_line(l)).cloned().collect::<Vec<_>>());
     let mm: Vec<String> = canon_trace(&model.trace.iter().filter(|l| is_mutating_line(l)).cloned().collect::<Vec<_>>());
+    let (rm, mm) = if o.blur_block_rm { (rm.iter().map(|l| blur_rm(l)).collect::<Vec<_>>(), mm.iter().map(|l| blur_rm(l)).collect::<Vec<_>>()) } else { (rm, mm) };
     if rm != mm {
         diffs += 1;
         report.disagree(&format!("{sig_prefix}:mutating-trace"), case.clone(), first_diff(&rm, &mm), json!("see impl/model in diff"));
